@@ -69,6 +69,11 @@ def trusted_scan(text):
             tb.append('external: ' + hdr[:200])
         elif re.search(r'\baxiom\b', f['header']) or ('broadcast' in f['header'] and 'admit()' in text[f['start']:f['end']]):
             tb.append('axiom: ' + hdr[:400])
+    for mm in re.finditer(r'#\s*\[\s*verifier::external_body\s*\]\s*(pub(\([^)]*\))?\s+)?struct\s+(\w+)', m):
+        tb.append('external_body type (opaque shim): ' + mm.group(3))
+    for f in fns:
+        if f['body_open'] < 0 and re.search(r'\b(ensures|requires)\b', f['header']):
+            tb.append('trait-level contract in template (assumed for every implementor): ' + ' '.join(text[f['start']:f['end']].split())[:400])
     for mm in re.finditer(r'\bassume_specification\b', m):
         e = rs.stmt_end(m, mm.start(), len(m))
         tb.append('assume_specification: ' + ' '.join(text[mm.start():e].split())[:400])
@@ -233,7 +238,7 @@ def run_unit(name, tier='quick', seed=0):
     r.obligations.update(lemma_obligations(u, text, spans, fns))
     r.functions = u.functions
     r.log = u.log
-    r.trusted = tb + ['N6 havoc: ' + h for h in u.havocs] + ['N7 ' + x for x in u.reduced]
+    r.trusted = tb + ['N6 havoc: ' + h for h in u.havocs] + ['N7 ' + x for x in u.reduced] + list(u.trait_contracts)
     renames = sorted(set((l['before'], l['after']) for l in u.log if l['rule'] == 'N3'))
     r.trusted += ['N3 rename: %s -> %s' % x for x in renames]
 
